@@ -51,7 +51,9 @@ type PathCase struct {
 var renames = []map[string]string{
 	{"a": "a", "b": "b", ".": ".", "..": "..", "x": "absent"},
 	{"a": "ü n%41 é", "b": "sp ace%2F", ".": ".", "..": "..", "x": "nö such"},
-	{"a": "2024", "b": "7", ".": ".", "..": "..", "x": "99"}, // names that look like list indices
+	{"a": "2024", "b": "7", ".": ".", "..": "..", "x": "99"},    // names that look like list indices
+	{"a": "a", "b": "Hash", ".": ".", "..": "..", "x": "Links"}, // absent names that are dag-pb field names
+	{"a": "Name", "b": "b", ".": ".", "..": "..", "x": "Data"},
 }
 
 type builtNode struct {
@@ -65,7 +67,8 @@ func fileContent(kind string, salt int) []byte {
 	if kind == "file1" {
 		return []byte{byte(65 + salt), 66, 67}
 	}
-	return []byte{byte(97 + salt), 98, 99, 100, 101, 102, 103}
+	// chunks of three bytes: the first chunk occurs twice (the same block is linked twice)
+	return []byte{byte(97 + salt), 98, 99, byte(97 + salt), 98, 99, 103}
 }
 
 // buildPTree stores the tree; all maps are keyed by the model path ("a/b").
@@ -348,7 +351,7 @@ func init() {
 				c.Segs = []string{}
 			}
 			pc := &PathCase{Fam: "path", ID: fmt.Sprintf("path-%d", i), Tree: c.Tree, Segs: c.Segs, Target: c.Target, MP: c.MP,
-				Pres: i % 5, Names: (i / 5) % 3, Entry: "builder", Passive: *passive}
+				Pres: i % 5, Names: (i / 5) % 5, Entry: "builder", Passive: *passive}
 			if c.Target == "match" && !c.MP && i%3 == 0 {
 				pc.Entry = "selector"
 			}
